@@ -785,6 +785,12 @@ class _Run:
         out = dict(a)
         for k_ in set(a) | set(b):
             va, vb = a.get(k_), b.get(k_)
+            if k_.startswith("@") and (va is None or vb is None):
+                # a remembered attribute store on one side only: on the other side the attribute still has its old (unknown) value
+                name, _, attr = k_[1:].partition(".")
+                old = ("a", base.get(name, ("v", name)), attr)
+                va = old if va is None else va
+                vb = old if vb is None else vb
             if va is None:
                 out[k_] = vb  # type: ignore
             elif vb is None:
